@@ -1,21 +1,39 @@
-(* C08: the escaped parse of the reference writer's text gives back the
-   segments (C08_parse_render). *)
+(* C08: the parse of the reference writer's text gives back the segments
+   (C08_parse_render).  Proved for a slightly more general writer [render_x]
+   (a plain key may back-slash additional characters: what str() does to a
+   key that came from the other notation) and for both parses: the escaped
+   one (strip = true) returns the segments, the unescaped one (strip = false)
+   returns them with the written form of every text [kseg]. *)
 From Coq Require Import List Ascii String ZArith Bool Arith Lia.
-From YP Require Import Outcome PyStr Generated PathParser PathPrinter C08Spec RtStep RtSeg.
+From YP Require Import Outcome PyStr Generated PathParser PathPrinter C08Spec RtStep RtSeg RtInt.
 Import ListNotations.
 Open Scope string_scope.
 Open Scope nat_scope.
 
 (* ---- accumulation of escaped / raw text in each mode ---- *)
-Lemma run_top_esc strip sp S ty A t acc sa sc :
-  first_char_ok (key_specials (sep_char sp)) sa sc t = true ->
-  run strip (sep_char sp) (Top S ty A acc sa sc) (esc_with (key_specials (sep_char sp)) t)
-  = Ok (Top S ty A (acc ++ kept strip (key_specials (sep_char sp)) t) (aft sa t) (aft sc t)).
+Definition covers (E small : list ascii) : Prop := forall c, mem_ascii c E = false -> mem_ascii c small = false.
+
+Lemma mem_app c a b : mem_ascii c (a ++ b)%list = (mem_ascii c a || mem_ascii c b)%bool.
+Proof. induction a as [|d r IH]; cbn; [reflexivity|]. destruct (Ascii.eqb c d); [reflexivity | exact IH]. Qed.
+
+Lemma covers_app X small : covers (X ++ small)%list small.
+Proof. intros c H. rewrite mem_app in H. apply orb_false_iff in H. apply H. Qed.
+
+Lemma covers_refl small : covers small small.
+Proof. intros c H. exact H. Qed.
+
+(* any superset E of the key specials may be back-slashed *)
+Lemma run_top_esc strip sp E S ty A t acc sa sc :
+  covers E (key_specials (sep_char sp)) ->
+  first_char_ok E sa sc t = true ->
+  run strip (sep_char sp) (Top S ty A acc sa sc) (esc_with E t)
+  = Ok (Top S ty A (acc ++ kept strip E t) (aft sa t) (aft sc t)).
 Proof.
+  intros HE.
   apply (esc_run strip (sep_char sp)
            (fun acc sa sc => Gst false S ty [] false None A None 0 CNone acc sa sc)
            (fun acc sa sc => Gst true S ty [] false None A None 0 CNone acc sa sc)).
-  - intros; apply plain_top; assumption.
+  - intros; apply plain_top; [apply HE|]; assumption.
   - intros; apply bs_step.
   - intros; apply esc_step.
 Qed.
@@ -113,9 +131,9 @@ Qed.
 Lemma expand_nostar t ty : str_in "*"%char t = false -> expand_splats t ty = Ok (ty, AStr t).
 Proof. intros H. unfold expand_splats. unfold star. rewrite H. reflexivity. Qed.
 
-Lemma pend_nostar a r ty :
-  str_in "*"%char (String a r) = false -> pend (String a r) ty = Ok [(key_if_none ty, AStr (String a r))].
-Proof. intros H. unfold pend. cbn [nonempty]. rewrite expand_nostar by assumption. reflexivity. Qed.
+Lemma pend_nostar t ty :
+  nonempty t = true -> str_in "*"%char t = false -> pend t ty = Ok [(key_if_none ty, AStr t)].
+Proof. intros Hn H. unfold pend. rewrite Hn. rewrite expand_nostar by assumption. reflexivity. Qed.
 
 Lemma pend_empty ty : pend "" ty = Ok [].
 Proof. reflexivity. Qed.
@@ -133,29 +151,124 @@ Proof.
   destruct sc; [|reflexivity]. specialize (H2 eq_refl). cbn in H2. cbn. exact H2.
 Qed.
 
+(* ---- what the two parses keep of a written text ---- *)
+Lemma kept_true S t : kept true S t = t.
+Proof. reflexivity. Qed.
+
+Lemma kept_cons strip S a r : exists a' r', kept strip S (String a r) = String a' r'.
+Proof.
+  destruct strip; cbn; [eauto|]. destruct (mem_ascii a S); eauto.
+Qed.
+
+Lemma kept_nonempty strip S t : nonempty t = true -> nonempty (kept strip S t) = true.
+Proof.
+  destruct t as [|a r]; [discriminate|]. intros _. destruct (kept_cons strip S a r) as (a' & r' & ->). reflexivity.
+Qed.
+
+Lemma str_in_esc c S t : Ascii.eqb c "\"%char = false -> str_in c (esc_with S t) = str_in c t.
+Proof.
+  intros Hc. induction t as [|d r IH]; [reflexivity|]. cbn [esc_with].
+  destruct (mem_ascii d S); cbn [str_in]; rewrite ?Hc, IH; reflexivity.
+Qed.
+
+Lemma kept_str_in strip c S t : Ascii.eqb c "\"%char = false -> str_in c (kept strip S t) = str_in c t.
+Proof. destruct strip; [reflexivity|]. apply str_in_esc. Qed.
+
+Lemma esc_with_id_kept strip S t : esc_with S t = t -> kept strip S t = t.
+Proof. destruct strip; [reflexivity|]. intros H; exact H. Qed.
+
+(* the generalised writer: a plain key may back-slash the extra characters X *)
+Definition xseg : Type := (sseg * list ascii)%type.
+
+Definition body_x (sepc : ascii) (y : xseg) : string :=
+  let '(x, X) := y in
+  match x with
+  | ((Some TKey, AStr k), st) =>
+      match st_quote st with
+      | None => esc_with (X ++ key_specials sepc) k
+      | Some _ => body sepc x
+      end
+  | _ => body sepc x
+  end.
+
+Fixpoint render_go_x (sepc : ascii) (first : bool) (l : list xseg) : string :=
+  match l with
+  | [] => ""
+  | y :: r =>
+      (if needs_sep (fst y) && negb first then c1 sepc else "") ++ body_x sepc y ++ render_go_x sepc false r
+  end.
+
+Definition render_x (sp : sep) (l : list xseg) : string :=
+  (match sp with Slash => "/" | Dot => "" end) ++ render_go_x (sep_char sp) true l.
+
+Definition plain_x (x : sseg) : xseg := (x, []).
+
+Lemma body_x_plain sepc x : body_x sepc (plain_x x) = body sepc x.
+Proof.
+  destruct x as [[ty at_] st]. destruct ty as [[]|]; try reflexivity. destruct at_; try reflexivity.
+  cbn. destruct (st_quote st); reflexivity.
+Qed.
+
+Lemma render_go_x_plain sepc l : forall first, render_go_x sepc first (map plain_x l) = render_go sepc first l.
+Proof.
+  induction l as [|x r IH]; intros first; [reflexivity|]. cbn [map render_go_x render_go].
+  rewrite body_x_plain, IH. reflexivity.
+Qed.
+
+Lemma render_x_plain sp l : render_x sp (map plain_x l) = render_ref sp l.
+Proof. unfold render_x, render_ref. rewrite render_go_x_plain. reflexivity. Qed.
+
+(* the segment as the parse returns it *)
+Definition term_set (st : style) : list ascii :=
+  match st_quote st with None => operand_specials | Some _ => quoted_specials end.
+
+Definition kseg (strip : bool) (sepc : ascii) (y : xseg) : seg :=
+  let '(x, X) := y in
+  let '(sg, st) := x in
+  match sg with
+  | (Some TKey, AStr k) =>
+      (Some TKey, AStr (kept strip (match st_quote st with None => (X ++ key_specials sepc)%list | Some _ => quoted_specials end) k))
+  | (Some TSearch, ASearch inv m attr term) =>
+      (Some TSearch, ASearch inv m (kept strip operand_specials attr)
+                       (match m with MRegex => term | _ => kept strip (term_set st) term end))
+  | (Some TKeywordSearch, AKeyword inv k params) =>
+      (Some TKeywordSearch, AKeyword inv k (kept strip param_specials params))
+  | _ => sg
+  end.
+
+Lemma kseg_true sepc y : kseg true sepc y = fst (fst y).
+Proof.
+  destruct y as [[[ty at_] st] X]. cbn [fst].
+  destruct ty as [[]|]; try reflexivity; destruct at_; try reflexivity.
+  cbn. destruct m; reflexivity.
+Qed.
+
 Section Segs.
 Variable sp : sep.
+Variable strip : bool.
 Notation sepc := (sep_char sp).
-Notation R := (run true sepc).
+Notation R := (run strip sepc).
 
 (* KEY, written with back-slash escapes *)
-Lemma key_esc_run S ty A a r sa sc rest :
-  first_char_ok (key_specials sepc) sa sc (String a r) = true ->
-  R (Top S ty A "" sa sc) (esc_with (key_specials sepc) (String a r) ++ rest)
-  = R (Top S ty A (String a r) false false) rest.
+Lemma key_esc_run E S ty A t sa sc rest :
+  covers E (key_specials sepc) ->
+  first_char_ok E sa sc t = true ->
+  R (Top S ty A "" sa sc) (esc_with E t ++ rest)
+  = R (Top S ty A (kept strip E t) (aft sa t) (aft sc t)) rest.
 Proof.
-  intros H. rewrite run_app, run_top_esc by assumption. reflexivity.
+  intros HE H. rewrite run_app, (run_top_esc strip sp E) by assumption. reflexivity.
 Qed.
 
 (* KEY, demarcated by quotes *)
 Lemma key_quoted_run q S A a r sa sc rest :
   first_char_ok quoted_specials sa sc (String a r) = true ->
   R (Top S None A "" sa sc) (c1 (qchar q) ++ esc_with quoted_specials (String a r) ++ c1 (qchar q) ++ rest)
-  = R (Top (S ++ [(Some TKey, AStr (String a r))])%list None A "" false false) rest.
+  = R (Top (S ++ [(Some TKey, AStr (kept strip quoted_specials (String a r)))])%list None A "" false false) rest.
 Proof.
   intros H. change (c1 (qchar q) ++ ?x) with (String (qchar q) x). cbn [run].
   rewrite quote_open_top. cbn [bind]. rewrite run_app, run_quoted_esc by assumption. cbn [bind].
-  change (c1 (qchar q) ++ rest) with (String (qchar q) rest). cbn [run kept append aft].
+  change (c1 (qchar q) ++ rest) with (String (qchar q) rest). cbn [run append aft].
+  destruct (kept_cons strip quoted_specials a r) as (a' & r' & ->).
   rewrite quote_close_top. reflexivity.
 Qed.
 
@@ -165,9 +278,12 @@ Lemma name_top_run S ty A n acc sa sc rest :
   first_char_ok (key_specials sepc) sa sc n = true ->
   R (Top S ty A acc sa sc) (n ++ rest) = R (Top S ty A (acc ++ n) (aft sa n) (aft sc n)) rest.
 Proof.
-  intros Hn Hf. rewrite <- (esc_with_id (key_specials sepc) n) at 1.
-  - rewrite run_app, run_top_esc by assumption. reflexivity.
-  - eapply all_chars_impl; [|exact Hn]. apply name_char_top.
+  intros Hn Hf.
+  assert (He : esc_with (key_specials sepc) n = n).
+  { apply esc_with_id. eapply all_chars_impl; [|exact Hn]. apply name_char_top. }
+  rewrite <- He at 1.
+  rewrite run_app, (run_top_esc strip sp (key_specials sepc)) by (try apply covers_refl; assumption).
+  rewrite (esc_with_id_kept strip _ _ He). reflexivity.
 Qed.
 
 Lemma anchor_bare_run S ty A a r sc rest :
@@ -189,12 +305,6 @@ Proof.
   destruct sa, sc; reflexivity.
 Qed.
 End Segs.
-
-(* the decimal text of an index reads back as the index (a property of the two
-   Lib functions str_of_Z / py_int, evaluated per index) *)
-Definition idx_ok (z : Z) : bool :=
-  all_chars is_slice_char (str_of_Z z) && negb (str_in ":"%char (str_of_Z z))
-  && match py_int (str_of_Z z) with Some z' => Z.eqb z' z | None => false end.
 
 Lemma quote_table c :
   mem_ascii c g_term_quote_chars = (Ascii.eqb c "'"%char || Ascii.eqb c """"%char).
@@ -229,22 +339,122 @@ Proof.
   rewrite length_snoc. cbn [String.length drop]. cbn. rewrite Nat.sub_0_r. apply take_snoc.
 Qed.
 
+(* a text written with back-slashed quotes does not start with a quote *)
+Lemma quote_wrapped_esc S t :
+  mem_ascii "'"%char S = true -> mem_ascii """"%char S = true -> quote_wrapped (esc_with S t) = false.
+Proof.
+  intros H1 H2. destruct t as [|c r]; [reflexivity|]. cbn [esc_with].
+  destruct (mem_ascii c S) eqn:Em.
+  - unfold quote_wrapped. cbn [first_char]. destruct (last_char _); reflexivity.
+  - unfold quote_wrapped. cbn [first_char].
+    assert (Ascii.eqb c "'"%char = false) as ->.
+    { destruct (Ascii.eqb c "'"%char) eqn:E; [|reflexivity]. apply Ascii.eqb_eq in E. subst c. rewrite H1 in Em. discriminate. }
+    assert (Ascii.eqb c """"%char = false) as ->.
+    { destruct (Ascii.eqb c """"%char) eqn:E; [|reflexivity]. apply Ascii.eqb_eq in E. subst c. rewrite H2 in Em. discriminate. }
+    destruct (last_char _); reflexivity.
+Qed.
+
+Lemma quote_wrapped_kept strip t :
+  quote_wrapped t = false -> quote_wrapped (kept strip operand_specials t) = false.
+Proof. destruct strip; [intros H; exact H|]. intros _. apply quote_wrapped_esc; reflexivity. Qed.
+
 Section Brackets.
 Variable sp : sep.
+Variable strip : bool.
 Notation sepc := (sep_char sp).
-Notation R := (run true sepc).
+Notation R := (run strip sepc).
 
 (* raw text of slice characters inside [ ] *)
 Lemma slice_br_run S ty i m A t acc sa rest :
   all_chars is_slice_char t = true ->
   R (Br S ty i m A acc sa false) (t ++ rest) = R (Br S ty i m A (acc ++ t) (aft sa t) false) rest.
 Proof.
-  intros Hn. rewrite <- (esc_with_id operand_specials t) at 1.
-  - rewrite run_app, run_br_esc; [rewrite aft_false; reflexivity|].
-    destruct t as [|c r]; [reflexivity|]. cbn. cbn in Hn. apply andb_true_iff in Hn. destruct Hn as [Hc _].
-    apply orb_true_iff. right. pose proof (name_char_noamp c Hc) as Hx. apply negb_true_iff in Hx.
-    unfold first_ok. rewrite Hx, andb_false_r. reflexivity.
-  - eapply all_chars_impl; [|exact Hn]. apply slice_char_plain.
+  intros Hn.
+  assert (He : esc_with operand_specials t = t).
+  { apply esc_with_id. eapply all_chars_impl; [|exact Hn]. apply slice_char_plain. }
+  rewrite <- He at 1.
+  rewrite run_app, run_br_esc; [rewrite aft_false, (esc_with_id_kept strip _ _ He); reflexivity|].
+  destruct t as [|c r]; [reflexivity|]. cbn. cbn in Hn. apply andb_true_iff in Hn. destruct Hn as [Hc _].
+  apply orb_true_iff. right. pose proof (name_char_noamp c Hc) as Hx. apply negb_true_iff in Hx.
+  unfold first_ok. rewrite Hx, andb_false_r. reflexivity.
+Qed.
+
+(* ---- SEARCH: [ !? attribute !? operator term ] ---- *)
+Lemma attr_run S (inv pre : bool) a r rest :
+  first_not_in ["&"%char] (String a r) = true ->
+  R (Br S (Some TIndex) false None "" "" true false)
+    ((if inv && pre then "!" else "") ++ esc_with operand_specials (String a r)
+       ++ (if inv && negb pre then "!" else "") ++ rest)
+  = R (Br S (Some TIndex) inv None "" (kept strip operand_specials (String a r)) false false) rest.
+Proof.
+  intros Hf.
+  assert (Hfc : first_char_ok operand_specials true false (String a r) = true).
+  { cbn [first_char_ok]. apply orb_true_iff. right. unfold first_ok. cbn in Hf.
+    destruct (Ascii.eqb a "&"%char); [discriminate Hf | reflexivity]. }
+  destruct inv, pre; cbn [andb negb].
+  - change ("!" ++ ?x) with (String "!"%char x). cbn [run]. rewrite bang_bracket. cbn [bind].
+    rewrite run_app, run_br_esc by exact Hfc. cbn [bind append aft]. reflexivity.
+  - change ("" ++ ?x) with x. rewrite run_app, run_br_esc by exact Hfc. cbn [bind append aft].
+    change ("!" ++ ?x) with (String "!"%char x). cbn [run]. rewrite bang_bracket. reflexivity.
+  - change ("" ++ ?x) with x. rewrite run_app, run_br_esc by exact Hfc. reflexivity.
+  - change ("" ++ ?x) with x. rewrite run_app, run_br_esc by exact Hfc. reflexivity.
+Qed.
+
+Lemma op_run S ty i A0 a r m rest :
+  R (Br S ty i None A0 (String a r) false false) (op_text m ++ rest)
+  = match m with
+    | MRegex => R (Rseek S i (String a r) false false) rest
+    | _ => R (Br S (Some TSearch) i (Some m) (String a r) "" false false) rest
+    end.
+Proof. destruct m; reflexivity. Qed.
+
+Lemma delim_run S i A d : forall t acc sa sc,
+  str_in d t = false ->
+  R (Rcap d S i A acc sa sc) t = Ok (Rcap d S i A (acc ++ t) (aft sa t) (aft sc t)).
+Proof.
+  induction t as [|c r IH]; intros acc sa sc H.
+  - cbn. rewrite app_nil_r_s. reflexivity.
+  - cbn [str_in] in H. destruct (Ascii.eqb d c) eqn:E; [discriminate H|].
+    cbn [run]. rewrite delim_char by (rewrite Ascii.eqb_sym; exact E). cbn [bind].
+    rewrite IH by exact H. rewrite app_snoc, !aft_false. reflexivity.
+Qed.
+
+Lemma regex_run S i A d term rest :
+  str_in d term = false -> Ascii.eqb d " "%char = false -> Ascii.eqb d "\"%char = false ->
+  quote_wrapped term = false ->
+  R (Rseek S i A false false) (c1 d ++ term ++ c1 d ++ "]" ++ rest)
+  = R (Top (S ++ [(Some TSearch, ASearch i MRegex A term)])%list None A "" false false) rest.
+Proof.
+  intros H1 H2 H3 H4. change (c1 d ++ ?x) with (String d x). cbn [run].
+  rewrite delim_open by assumption. cbn [bind].
+  rewrite run_app, delim_run by assumption. cbn [bind append].
+  change (c1 d ++ ?x) with (String d x).
+  rewrite delim_close, undemarcate_id by assumption. rewrite ?aft_false. reflexivity.
+Qed.
+
+Lemma term_run S i m A st term rest :
+  (st_quote st = None -> quote_wrapped term = false) ->
+  R (Br S (Some TSearch) i (Some m) A "" false false)
+    (match st_quote st with
+     | None => esc_with operand_specials term
+     | Some q => c1 (qchar q) ++ esc_with quoted_specials term ++ c1 (qchar q)
+     end ++ "]" ++ rest)
+  = R (Top (S ++ [(Some TSearch, ASearch i m A (kept strip (term_set st) term))])%list None A "" false false) rest.
+Proof.
+  intros Hq. unfold term_set. destruct (st_quote st) as [q|].
+  - rewrite !app_assoc_s. change (c1 (qchar q) ++ ?x) with (String (qchar q) x). cbn [run].
+    rewrite quote_open_br. cbn [bind].
+    rewrite run_app, run_bq_esc by (apply first_char_ok_ff). cbn [bind].
+    change (c1 (qchar q) ++ "]" ++ rest) with (String (qchar q) (String "]"%char rest)). cbn [run].
+    rewrite quote_close_br. cbn [bind]. rewrite close_search. cbn [bind].
+    unfold snoc. cbn [append]. rewrite ?aft_false.
+    change (String (qchar q) (kept strip quoted_specials term) ++ String (qchar q) "")
+      with (String (qchar q) (kept strip quoted_specials term ++ c1 (qchar q))).
+    rewrite undemarcate_wrapped. reflexivity.
+  - rewrite run_app, run_br_esc by (apply first_char_ok_ff). cbn [bind append].
+    change ("]" ++ rest) with (String "]"%char rest). cbn [run]. rewrite close_search. cbn [bind].
+    rewrite undemarcate_id by (apply quote_wrapped_kept; apply Hq; reflexivity).
+    rewrite ?aft_false. reflexivity.
 Qed.
 End Brackets.
 
@@ -261,20 +471,21 @@ Proof. rewrite app_assoc. reflexivity. Qed.
 
 Section Main.
 Variable sp : sep.
+Variable strip : bool.
 Notation sepc := (sep_char sp).
-Notation R := (run true sepc).
+Notation R := (run strip sepc).
 
 (* segments that are preceded by a separator, from the state just after it *)
-Lemma seg_core x S A sa sc prev_coll rest :
-  wf_seg prev_coll x = true -> needs_sep x = true ->
-  (sc = true -> prev_coll = true) -> (bare_anchor x = true -> sa = true) ->
-  exists st', R (Top S None A "" sa sc) (body sepc x ++ rest) = R st' rest
-              /\ Inv (is_collector x) (S ++ [fst x])%list st'.
+Lemma seg_core y S A sa sc prev_coll rest :
+  wf_seg prev_coll (fst y) = true -> needs_sep (fst y) = true ->
+  (sc = true -> prev_coll = true) -> (bare_anchor (fst y) = true -> sa = true) ->
+  exists st', R (Top S None A "" sa sc) (body_x sepc y ++ rest) = R st' rest
+              /\ Inv (is_collector (fst y)) (S ++ [kseg strip sepc y])%list st'.
 Proof.
-  intros Hwf Hns Hsc Hba. destruct x as [[ty at_] st]. cbn [fst].
+  intros Hwf Hns Hsc Hba. destruct y as [[[ty at_] st] X]. cbn [fst] in *.
   destruct ty as [[]|]; try discriminate Hns; destruct at_; try discriminate Hwf; cbn [is_collector].
   - (* bare anchor *)
-    cbn in Hns. apply negb_true_iff in Hns. cbn [body]. rewrite Hns.
+    cbn in Hns. apply negb_true_iff in Hns. cbn [body_x body kseg]. rewrite Hns.
     cbn [wf_seg] in Hwf. rewrite Hns in Hwf. cbn [orb] in Hwf.
     apply andb_true_iff in Hwf. destruct Hwf as [Hwf H3]. apply andb_true_iff in Hwf. destruct Hwf as [H1 H2].
     destruct s as [|a r]; [discriminate H1|].
@@ -284,53 +495,55 @@ Proof.
       intros ->. rewrite (Hsc eq_refl) in H3. exact H3.
     + exists S, (Some TAnchor), A, (String a r), false, false, [(Some TAnchor, AStr (String a r))].
       repeat split; try discriminate.
-      apply pend_nostar. apply str_in_all. eapply all_chars_impl; [|exact H2]. apply name_char_nostar.
+      apply pend_nostar; [reflexivity|]. apply str_in_all. eapply all_chars_impl; [|exact H2]. apply name_char_nostar.
   - (* KEY *)
     cbn [wf_seg] in Hwf.
     apply andb_true_iff in Hwf. destruct Hwf as [Hwf H4]. apply andb_true_iff in Hwf. destruct Hwf as [Hwf H3].
     apply andb_true_iff in Hwf. destruct Hwf as [H1 H2]. destruct s as [|a r]; [discriminate H1|].
     assert (Hfo : first_ok sa sc a = true).
     { apply (first_ok_from sa sc a r H2). intros ->. rewrite (Hsc eq_refl) in H3. exact H3. }
-    cbn [body]. destruct (st_quote st) as [q|].
+    cbn [body_x body kseg]. destruct (st_quote st) as [q|].
     + eexists. split.
       * rewrite !app_assoc_s. apply key_quoted_run. cbn. rewrite Hfo. apply orb_true_r.
-      * exists (S ++ [(Some TKey, AStr (String a r))])%list, None, A, "", false, false, [].
+      * exists (S ++ [(Some TKey, AStr (kept strip quoted_specials (String a r)))])%list, None, A, "", false, false, [].
         repeat split; try discriminate. apply app_nil_r.
     + eexists. split.
-      * apply key_esc_run. cbn [first_char_ok]. rewrite Hfo. apply orb_true_r.
-      * exists S, None, A, (String a r), false, false, [(Some TKey, AStr (String a r))].
-        repeat split; try discriminate. apply pend_nostar. apply negb_true_iff. exact H4.
+      * apply key_esc_run; [apply covers_app|]. cbn [first_char_ok]. rewrite Hfo. apply orb_true_r.
+      * exists S, None, A, (kept strip (X ++ key_specials sepc) (String a r)), false, false,
+               [(Some TKey, AStr (kept strip (X ++ key_specials sepc) (String a r)))].
+        repeat split; try discriminate.
+        apply pend_nostar; [apply kept_nonempty; reflexivity|].
+        rewrite kept_str_in by reflexivity. apply negb_true_iff. exact H4.
   - (* ** *)
-    cbn [body]. eexists. split.
+    cbn [body_x body kseg]. eexists. split.
     + change ("**" ++ rest) with (String "*"%char (String "*"%char rest)).
       rewrite star_run by (left; reflexivity). rewrite star_run by (right; split; reflexivity). reflexivity.
     + exists S, None, A, "**", false, false, [(Some TTraverse, ANone)]. repeat split; try discriminate.
   - (* * *)
-    cbn [body]. eexists. split.
+    cbn [body_x body kseg]. eexists. split.
     + change ("*" ++ rest) with (String "*"%char rest). rewrite star_run by (left; reflexivity). reflexivity.
     + exists S, None, A, "*", false, false, [(Some TMatchAll, ANone)]. repeat split; try discriminate.
 Qed.
 
-Definition idx_guard (x : sseg) : bool :=
-  match x with ((Some TIndex, AInt z), _) => idx_ok z | _ => true end.
-
-Definition is_search (x : sseg) : bool :=
-  match x with ((Some TSearch, _), _) => true | _ => false end.
-
 Lemma str_brk (t rest : string) : ("[" ++ t ++ "]" ++ rest = String "["%char (t ++ String "]"%char rest))%string.
 Proof. reflexivity. Qed.
 
-(* segments that carry their own demarcation, from any state between segments *)
-Lemma seg_self x prev_coll done st rest :
-  Inv prev_coll done st -> wf_seg prev_coll x = true -> needs_sep x = false -> is_search x = false ->
-  idx_guard x = true ->
-  exists st', R st (body sepc x ++ rest) = R st' rest /\ Inv (is_collector x) (done ++ [fst x])%list st'.
+Lemma body_x_self y : needs_sep (fst y) = false -> body_x sepc y = body sepc (fst y).
 Proof.
-  intros (S & ty0 & A & acc & sa & sc & p & -> & Hp & <- & Hc1 & Hc2) Hwf Hns Hse Hidx.
-  destruct x as [[ty at_] st]. cbn [fst].
-  destruct ty as [[]|]; try discriminate Hns; try discriminate Hse; destruct at_; try discriminate Hwf; cbn [is_collector].
+  destruct y as [[[ty at_] st] X]. cbn [fst]. destruct ty as [[]|]; try reflexivity. discriminate.
+Qed.
+
+(* segments that carry their own demarcation, from any state between segments *)
+Lemma seg_self y prev_coll done st rest :
+  Inv prev_coll done st -> wf_seg prev_coll (fst y) = true -> needs_sep (fst y) = false ->
+  exists st', R st (body_x sepc y ++ rest) = R st' rest /\ Inv (is_collector (fst y)) (done ++ [kseg strip sepc y])%list st'.
+Proof.
+  intros (S & ty0 & A & acc & sa & sc & p & -> & Hp & <- & Hc1 & Hc2) Hwf Hns.
+  rewrite (body_x_self y Hns).
+  destruct y as [[[ty at_] st] X]. cbn [fst] in *.
+  destruct ty as [[]|]; try discriminate Hns; destruct at_; try discriminate Hwf; cbn [is_collector].
   - (* [&anchor] *)
-    cbn in Hns. apply negb_false_iff in Hns. cbn [body]. rewrite Hns.
+    cbn in Hns. apply negb_false_iff in Hns. cbn [body kseg]. rewrite Hns.
     cbn [wf_seg] in Hwf. rewrite Hns in Hwf. cbn [orb] in Hwf. rewrite andb_true_r in Hwf.
     apply andb_true_iff in Hwf. destruct Hwf as [H1 H2].
     eexists. split.
@@ -345,12 +558,12 @@ Proof.
     unfold wf_expr in He. apply andb_true_iff in He. destruct He as [He H4].
     apply andb_true_iff in He. destruct He as [He H3]. apply andb_true_iff in He. destruct He as [H1 H2].
     destruct expr as [|e0 er]; [discriminate H1|].
-    cbn [body]. rewrite !app_assoc_s. change ("(" ++ ?x) with (String "("%char x).
+    cbn [body kseg]. rewrite !app_assoc_s. change ("(" ++ ?x) with (String "("%char x).
     assert (Hrun : forall S' A' o sa', (sa' = true -> first_not_in ["&"%char] (String e0 er) = true) ->
               R (Cst S' A' o 0 "" sa' false) (String e0 er ++ ")" ++ rest)
               = R (Top (S' ++ [(Some TCollector, ACollector o (String e0 er))])%list (Some TCollector) A' "" false true) rest).
-    { intros S' A' o sa' Hsa. rewrite (run_app true sepc (String e0 er)).
-      pose proof (coll_expr true sepc S' A' o (String e0 er) 0 0 "" sa' H2 H3 Hsa) as Hx.
+    { intros S' A' o sa' Hsa. rewrite (run_app strip sepc (String e0 er)).
+      pose proof (coll_expr strip sepc S' A' o (String e0 er) 0 0 "" sa' H2 H3 Hsa) as Hx.
       cbn [Nat.add] in Hx. rewrite Hx. cbn [bind append aft].
       change (")" ++ rest) with (String ")"%char rest). cbn [run].
       rewrite coll_close. reflexivity. }
@@ -377,43 +590,55 @@ Proof.
       * exists (S ++ [(Some TCollector, ACollector CAnd (String e0 er))])%list, (Some TCollector), A, "", false, true, [].
         repeat split; try discriminate. apply app_nil_r.
   - (* slice *)
-    cbn [wf_seg] in Hwf. apply andb_true_iff in Hwf. destruct Hwf as [H1 H2]. cbn [body].
+    cbn [wf_seg] in Hwf. apply andb_true_iff in Hwf. destruct Hwf as [H1 H2]. cbn [body kseg].
     eexists. split.
     + rewrite !app_assoc_s, str_brk. cbn [run]. rewrite open_bracket_top, Hp. cbn [bind].
       rewrite slice_br_run by exact H2. cbn [append run]. rewrite close_slice by exact H1. reflexivity.
     + exists ((S ++ p) ++ [(Some TIndex, AStr s)])%list, None, "", "", (aft true s), false, [].
       repeat split; try discriminate. apply app_nil_r.
   - (* element index *)
-    cbn [idx_guard] in Hidx. unfold idx_ok in Hidx.
-    apply andb_true_iff in Hidx. destruct Hidx as [Hidx H3]. apply andb_true_iff in Hidx. destruct Hidx as [H1 H2].
-    apply negb_true_iff in H2. destruct (py_int (str_of_Z z)) as [z'|] eqn:Ez; [|discriminate H3].
-    apply Z.eqb_eq in H3. subst z'. cbn [body].
+    destruct (str_of_Z_chars z) as [H1 H2]. pose proof (py_int_str_of_Z z) as H3. cbn [body kseg].
     eexists. split.
     + rewrite !app_assoc_s, str_brk. cbn [run]. rewrite open_bracket_top, Hp. cbn [bind].
       rewrite slice_br_run by exact H1. cbn [append run]. rewrite (close_index _ _ _ _ _ _ _ _ _ z) by assumption. reflexivity.
     + exists ((S ++ p) ++ [(Some TIndex, AInt z)])%list, None, "", "", (aft true (str_of_Z z)), false, [].
       repeat split; try discriminate. apply app_nil_r.
+  - (* search *)
+    cbn [wf_seg] in Hwf. apply andb_true_iff in Hwf. destruct Hwf as [Hwf Ht].
+    apply andb_true_iff in Hwf. destruct Hwf as [H1 H2]. destruct attr as [|a r]; [discriminate H1|].
+    cbn [body kseg]. rewrite !app_assoc_s. change ("[" ++ ?x) with (String "["%char x).
+    destruct (kept_cons strip operand_specials a r) as (a' & r' & Ek).
+    eexists. split.
+    + cbn [run]. rewrite open_bracket_top, Hp. cbn [bind].
+      rewrite (attr_run sp strip _ inv (st_prefix st) a r _ H2). rewrite Ek, op_run.
+      instantiate (1 := Top ((S ++ p) ++ [kseg strip sepc (((Some TSearch, ASearch inv m (String a r) term), st), X)])%list
+                            None (String a' r') "" false false).
+      cbn [kseg]. rewrite Ek.
+      destruct m; try (apply term_run; intros Eq; rewrite Eq in Ht; apply negb_true_iff; exact Ht).
+      (* regex *)
+      apply andb_true_iff in Ht. destruct Ht as [Ht T4]. apply andb_true_iff in Ht. destruct Ht as [Ht T3].
+      apply andb_true_iff in Ht. destruct Ht as [T1 T2].
+      rewrite !app_assoc_s. apply regex_run; apply negb_true_iff; assumption.
+    + eexists _, None, _, "", false, false, []. repeat split; try discriminate. apply app_nil_r.
   - (* keyword search *)
-    cbn [body]. eexists. split.
+    cbn [body kseg]. eexists. split.
     + rewrite !app_assoc_s. change ("[" ++ ?x) with (String "["%char x). cbn [run]. rewrite open_bracket_top, Hp. cbn [bind].
-      instantiate (1 := Top ((S ++ p) ++ [(Some TKeywordSearch, AKeyword inv k params)])%list None "" "" false false).
+      instantiate (1 := Top ((S ++ p) ++ [(Some TKeywordSearch, AKeyword inv k (kept strip param_specials params))])%list None "" "" false false).
       change ("(" ++ ?x) with (String "("%char x).
       assert (Hk : forall i sa', R (Br (S ++ p)%list (Some TIndex) i None "" "" sa' false)
                           (kw_text k ++ String "("%char (esc_with param_specials params ++ ")]" ++ rest))
-                     = R (Top ((S ++ p) ++ [(Some TKeywordSearch, AKeyword i k params)])%list None "" "" false false) rest).
+                     = R (Top ((S ++ p) ++ [(Some TKeywordSearch, AKeyword i k (kept strip param_specials params))])%list None "" "" false false) rest).
       { intros i sa'. change (String "("%char ?x) with ("(" ++ x). rewrite <- (app_assoc_s (kw_text k) "(" _).
-        rewrite (run_app true sepc (kw_text k ++ "(")), kw_open. cbn [bind].
-        rewrite (run_app true sepc (esc_with param_specials params)), run_params_esc by (apply first_char_ok_ff).
-        cbn [bind kept append].
+        rewrite (run_app strip sepc (kw_text k ++ "(")), kw_open. cbn [bind].
+        rewrite (run_app strip sepc (esc_with param_specials params)), run_params_esc by (apply first_char_ok_ff).
+        cbn [bind append].
         change (")]" ++ rest) with (String ")"%char (String "]"%char rest)). rewrite kw_close. rewrite aft_false. reflexivity. }
       destruct inv.
       * change ("!" ++ ?x) with (String "!"%char x). cbn [run]. rewrite bang_bracket. cbn [bind]. apply Hk.
       * change ("" ++ ?x) with x. apply Hk.
-    + exists ((S ++ p) ++ [(Some TKeywordSearch, AKeyword inv k params)])%list, None, "", "", false, false, [].
+    + exists ((S ++ p) ++ [(Some TKeywordSearch, AKeyword inv k (kept strip param_specials params))])%list, None, "", "", false, false, [].
       repeat split; try discriminate. apply app_nil_r.
 Qed.
-
-Definition not_search (x : sseg) : bool := negb (is_search x).
 
 Lemma inv_sc prev_coll done S ty A acc sa sc :
   Inv prev_coll done (Top S ty A acc sa sc) -> sc = true -> prev_coll = true.
@@ -423,42 +648,41 @@ Proof.
   discriminate (Hc2 eq_refl).
 Qed.
 
+Definition ksegs (l : list xseg) : list seg := map (kseg strip sepc) l.
+
 Lemma render_go_run : forall l first prev_coll done st,
-  Inv prev_coll done st -> wf_go prev_coll l = true ->
-  forallb idx_guard l = true -> forallb not_search l = true ->
+  Inv prev_coll done st -> wf_go prev_coll (map fst l) = true ->
   (first = true -> exists S A sa, st = Top S None A "" sa false /\ done = S /\ prev_coll = false /\
-                     match l with x :: _ => bare_anchor x = true -> sa = true | [] => True end) ->
-  exists st', R st (render_go sepc first l) = Ok st' /\ finish st' = Ok (done ++ segs_of l)%list.
+                     match l with y :: _ => bare_anchor (fst y) = true -> sa = true | [] => True end) ->
+  exists st', R st (render_go_x sepc first l) = Ok st' /\ finish st' = Ok (done ++ ksegs l)%list.
 Proof.
-  induction l as [|x r IH]; intros first prev_coll done st HI Hwf Hidx Hns Hfirst.
+  induction l as [|y r IH]; intros first prev_coll done st HI Hwf Hfirst.
   - exists st. split; [reflexivity|].
     destruct HI as (S & ty0 & A & acc & sa & sc & p & -> & Hp & <- & _).
     rewrite finish_top, Hp. cbn. rewrite app_nil_r. reflexivity.
-  - cbn [wf_go] in Hwf. apply andb_true_iff in Hwf. destruct Hwf as [Hx Hr].
-    cbn [forallb] in Hidx, Hns. apply andb_true_iff in Hidx. destruct Hidx as [Hix Hir].
-    apply andb_true_iff in Hns. destruct Hns as [Hnx Hnr].
-    cbn [render_go segs_of map].
-    assert (Hfin : forall st1, Inv (is_collector x) (done ++ [fst x])%list st1 ->
-                   exists st', R st1 (render_go sepc false r) = Ok st' /\ finish st' = Ok (done ++ fst x :: segs_of r)%list).
-    { intros st1 HI1. destruct (IH false _ _ st1 HI1 Hr Hir Hnr) as (st' & H1 & H2); [discriminate|].
+  - cbn [map wf_go] in Hwf. apply andb_true_iff in Hwf. destruct Hwf as [Hx Hr].
+    cbn [render_go_x ksegs map].
+    assert (Hfin : forall st1, Inv (is_collector (fst y)) (done ++ [kseg strip sepc y])%list st1 ->
+                   exists st', R st1 (render_go_x sepc false r) = Ok st'
+                               /\ finish st' = Ok (done ++ kseg strip sepc y :: ksegs r)%list).
+    { intros st1 HI1. destruct (IH false _ _ st1 HI1 Hr) as (st' & H1 & H2); [discriminate|].
       exists st'. split; [exact H1|]. rewrite H2. rewrite <- app_assoc. reflexivity. }
-    destruct (needs_sep x) eqn:Ens.
+    destruct (needs_sep (fst y)) eqn:Ens.
     + destruct first.
       * cbn [negb andb]. change ("" ++ ?z) with z.
         destruct (Hfirst eq_refl) as (S & A & sa & -> & -> & -> & Hba).
-        destruct (seg_core x S A sa false false (render_go sepc false r) Hx Ens) as (st1 & H1 & HI1);
+        destruct (seg_core y S A sa false false (render_go_x sepc false r) Hx Ens) as (st1 & H1 & HI1);
           [discriminate | exact Hba |].
         destruct (Hfin st1 HI1) as (st' & H2 & H3). exists st'. split; [rewrite H1; exact H2 | exact H3].
       * cbn [negb andb]. change (c1 sepc ++ ?z) with (String sepc z).
         pose proof HI as HI0.
         destruct HI as (S & ty0 & A & acc & sa & sc & p & -> & Hp & <- & Hc1 & Hc2).
         cbn [run]. rewrite sep_step_top, Hp. cbn [bind].
-        destruct (seg_core x (S ++ p)%list A true sc prev_coll (render_go sepc false r) Hx Ens) as (st1 & H1 & HI1);
+        destruct (seg_core y (S ++ p)%list A true sc prev_coll (render_go_x sepc false r) Hx Ens) as (st1 & H1 & HI1);
           [intros Hsc; eapply inv_sc; eassumption | reflexivity |].
         destruct (Hfin st1 HI1) as (st' & H2 & H3). exists st'. split; [rewrite H1; exact H2 | exact H3].
     + cbn [andb]. change ("" ++ ?z) with z.
-      unfold not_search in Hnx. apply negb_true_iff in Hnx.
-      destruct (seg_self x prev_coll done st (render_go sepc false r) HI Hx Ens Hnx Hix) as (st1 & H1 & HI1).
+      destruct (seg_self y prev_coll done st (render_go_x sepc false r) HI Hx Ens) as (st1 & H1 & HI1).
       destruct (Hfin st1 HI1) as (st' & H2 & H3). exists st'. split; [rewrite H1; exact H2 | exact H3].
 Qed.
 End Main.
@@ -472,10 +696,10 @@ Proof. exists [], None, "", "", b, false, []. repeat split; try discriminate. Qe
 Lemma normalize_nonblank t : nonempty (strip_py t) = true -> normalize_original t = t.
 Proof. unfold normalize_original. destruct (strip_py t); [discriminate | reflexivity]. Qed.
 
-Lemma bare_anchor_head sepc x r c0 t :
-  bare_anchor x = true -> wf_seg false x = true -> String c0 t = render_go sepc true (x :: r) -> c0 = "&"%char.
+Lemma bare_anchor_head sepc y r c0 t :
+  bare_anchor (fst y) = true -> wf_seg false (fst y) = true -> String c0 t = render_go_x sepc true (y :: r) -> c0 = "&"%char.
 Proof.
-  intros Hb Hw E. destruct x as [[[[]|] at_] st]; try discriminate Hb. cbn in Hb. apply negb_true_iff in Hb.
+  intros Hb Hw E. destruct y as [[[[[]|] at_] st] X]; try discriminate Hb. cbn in Hb. apply negb_true_iff in Hb.
   destruct at_; try discriminate Hw. cbn in E. rewrite Hb in E. cbn in E. injection E as E _. exact E.
 Qed.
 
@@ -483,34 +707,58 @@ Lemma nth_slash T :
   nth_char (if 1 <? String.length (String "/"%char T) then 1 else 0) (String "/"%char T) <> None.
 Proof. destruct T; cbn; discriminate. Qed.
 
-(* the fragment without SEARCH segments *)
-Theorem parse_render_nosearch sp l :
-  wf sp l = true -> forallb idx_guard l = true -> forallb not_search l = true ->
-  parse (Forced sp) true (render_ref sp l) = Ok (segs_of l).
+(* a text that is not blank: the parse of the generalised writer's text *)
+Definition nonblank (t : string) : bool := nonempty (strip_py t).
+
+Theorem parse_render_x sp strip l :
+  wf_go false (map fst l) = true -> (is_nil l || nonblank (render_x sp l)) = true ->
+  parse (Forced sp) strip (render_x sp l) = Ok (map (kseg strip (sep_char sp)) l).
 Proof.
-  intros Hwf Hidx Hns. unfold wf in Hwf. apply andb_true_iff in Hwf. destruct Hwf as [Hgo Hbl].
+  intros Hgo Hbl. unfold nonblank in Hbl.
   destruct l as [|x r].
   - destruct sp; vm_compute; reflexivity.
   - cbn [is_nil orb] in Hbl. unfold parse. rewrite (normalize_nonblank _ Hbl).
-    destruct (render_ref sp (x :: r)) as [|c0 t] eqn:Et; [discriminate Hbl|].
+    destruct (render_x sp (x :: r)) as [|c0 t] eqn:Et; [discriminate Hbl|].
     cbn [effective_sep].
     destruct sp.
     + (* dot *)
       cbn [nth_char String.get]. cbv beta iota.
-      unfold render_ref in Et. change ("" ++ ?z) with z in Et.
-      destruct (render_go_run Dot (x :: r) true false [] (Top [] None "" "" (Ascii.eqb c0 "&"%char) false)
-                  (inv_init _) Hgo Hidx Hns) as (st' & H1 & H2).
+      unfold render_x in Et. change ("" ++ ?z) with z in Et.
+      destruct (render_go_run Dot strip (x :: r) true false [] (Top [] None "" "" (Ascii.eqb c0 "&"%char) false)
+                  (inv_init _) Hgo) as (st' & H1 & H2).
       { intros _. exists [], "", (Ascii.eqb c0 "&"%char). repeat split.
-        intros Hb. cbn [wf_go] in Hgo. apply andb_true_iff in Hgo. destruct Hgo as [Hx _].
+        intros Hb. cbn [map wf_go] in Hgo. apply andb_true_iff in Hgo. destruct Hgo as [Hx _].
         rewrite (bare_anchor_head _ x r c0 t Hb Hx (eq_sym Et)). reflexivity. }
       rewrite init_is_top. cbn [sepc_of sep_char] in Et, H1 |- *. rewrite <- Et. rewrite H1. cbn [bind]. exact H2.
     + (* slash *)
-      unfold render_ref in Et. change ("/" ++ ?z) with (String "/"%char z) in Et. injection Et as <- <-.
-      destruct (render_go_run Slash (x :: r) true false [] (Top [] None "" "" true false)
-                  (inv_init _) Hgo Hidx Hns) as (st' & H1 & H2).
+      unfold render_x in Et. change ("/" ++ ?z) with (String "/"%char z) in Et. injection Et as <- <-.
+      destruct (render_go_run Slash strip (x :: r) true false [] (Top [] None "" "" true false)
+                  (inv_init _) Hgo) as (st' & H1 & H2).
       { intros _. exists [], "", true. repeat split. }
       destruct (nth_char _ _) as [c1|] eqn:En.
-      * rewrite init_is_top. cbn [sepc_of run]. rewrite (sep_step_top true Slash). cbn [pend nonempty bind app].
-        cbn [sep_char render_go negb] in H1 |- *. rewrite H1. cbn [bind]. exact H2.
+      * rewrite init_is_top. cbn [sepc_of run]. rewrite (sep_step_top strip Slash). cbn [pend nonempty bind app].
+        cbn [sep_char render_go_x negb] in H1 |- *. rewrite H1. cbn [bind]. exact H2.
       * exfalso. eapply nth_slash. exact En.
+Qed.
+
+Lemma map_kseg_true sepc l : map (kseg true sepc) (map plain_x l) = segs_of l.
+Proof.
+  unfold segs_of. rewrite map_map. apply map_ext. intros x. rewrite kseg_true. reflexivity.
+Qed.
+
+Lemma map_fst_plain l : map fst (map plain_x l) = l.
+Proof. rewrite map_map. cbn. apply map_id. Qed.
+
+Lemma is_nil_map {A B} (f : A -> B) l : is_nil (map f l) = is_nil l.
+Proof. destruct l; reflexivity. Qed.
+
+(* clause 1 of the property: every kind of segment, both notations *)
+Theorem parse_render sp l :
+  wf sp l = true -> parse (Forced sp) true (render_ref sp l) = Ok (segs_of l).
+Proof.
+  intros Hwf. unfold wf in Hwf. apply andb_true_iff in Hwf. destruct Hwf as [Hgo Hbl].
+  rewrite <- render_x_plain, <- (map_kseg_true (sep_char sp)).
+  apply parse_render_x.
+  - rewrite map_fst_plain. exact Hgo.
+  - rewrite is_nil_map. unfold nonblank. rewrite render_x_plain. exact Hbl.
 Qed.
